@@ -31,6 +31,7 @@ structure Mon where
   dropped : List (BId × EId) := []      -- events a run loop had taken when it was stopped / cancelled: never processed
   wiAccepted : List (Nat × List EId) := []      -- per blocked wait_until_idle caller: events accepted by its bus before the call
   stopped : List BId := []              -- buses whose stop() has returned
+  rlCancelledBy : List BId := []        -- buses whose run-loop task was cancelled from outside (until a new one is created)
   expSince : List (Nat × List EId) := []        -- per pending expect(): events of its bus begun since the call, in order
   expHandlers : List (Nat × List Reg) := []     -- per pending expect(): the bus's handler registry before the call
   expResolvedAt : List (Nat × Nat) := [] -- expect() calls: the time their future was resolved with a match
@@ -219,7 +220,13 @@ def Mon.step (m : Mon) (w : World) (l : Label) (w' : World) : Mon × List Vio :=
                 match w.waiter x with
                 | .expecting b' _ _ _ _ _ => if b' == b then (x, l ++ [e]) else (x, l)
                 | _ => (x, l) },
-     if !C02.beginOrder w p b e then v "C02" "beginOrder" ["C02-inv"] s!"bus {b}: {e} begins inline while the run loop holds an earlier event" else [])
+     (if !C02.beginOrder w p b e then v "C02" "beginOrder" ["C02-inv"] s!"bus {b}: {e} begins inline while the run loop holds an earlier event" else []) ++
+     -- (a cancelled run-loop task may still receive the item of its pending get(), but it never processes it)
+     (match p with
+      | .rl b' => if m.rlCancelledBy.contains b' then
+          v "C16" "cancelIgnored" [] s!"run loop of bus {b'} begins processing event {e} after its task was cancelled: the cancellation did not terminate it"
+        else []
+      | _ => []))
   | .hSched _ i b e k =>
     (m, if !C01.once w b e k then v "C01" "twice" [] s!"instance {i}: handler {k} of bus {b} scheduled again for event {e}" else [])
   | .hStart j =>
@@ -312,7 +319,8 @@ def Mon.step (m : Mon) (w : World) (l : Label) (w' : World) : Mon × List Vio :=
       ({ m with stopped := m.stopped ++ [b] },
        if w.now > d then v "C16" "stopLate" [] s!"stop() of bus {b} returned at {w.now}, after its grace deadline {d}" else [])
     | _ => (m, [])
-  | .rlCreate b => ({ m with stopped := m.stopped.filter (· != b) }, [])
+  | .rlCreate b => ({ m with stopped := m.stopped.filter (· != b), rlCancelledBy := m.rlCancelledBy.filter (· != b) }, [])
+  | .cancelRl b => ({ m with rlCancelledBy := m.rlCancelledBy ++ [b] }, [])
   | .rlDropExit b | .rlCancelled b =>
     (match (w.bus b).rl with
      | .took e => ({ m with dropped := m.dropped ++ [(b, e)] }, [])
